@@ -141,6 +141,11 @@ impl Conn {
     pub open spec fn wf(&self) -> bool {
         &&& forall|k: i32| self.resultmap@.contains_key(k) ==> #[trigger] self.resultmap@[k].owner() == k
         &&& forall|k: i32| self.searchmap@.contains_key(k) ==> #[trigger] self.searchmap@[k].owner() == k
+        // a route exists only for a reserved ID: a released ID can be handed out again, and a stale route would
+        // then capture the new operation's responses (searchmap is consulted first)
+        &&& forall|k: i32| #![trigger self.msgmap.1@.contains(k)] (self.resultmap@.contains_key(k) || self.searchmap@.contains_key(k)) ==> self.msgmap.1@.contains(k)
+        // an ID has at most one route
+        &&& forall|k: i32| #![trigger self.resultmap@.contains_key(k)] !(self.resultmap@.contains_key(k) && self.searchmap@.contains_key(k))
     }
     pub open spec fn inuse(&self) -> Set<i32> { self.msgmap.1@ }
 
@@ -171,6 +176,10 @@ impl Conn {
     requires
         old(self).wf(),
         op_tuple matches Some(t) ==> op_wf(t.0, t.1, t.4),
+        // the tuple's ID was reserved by next_msgid (V-msgid: not in use before, so by wf it has no route) and
+        // nothing has released it since (assumption: no scrub of an ID overtakes the request that carries it)
+        op_tuple matches Some(t) ==> old(self).msgmap.1@.contains(t.0)
+            && !old(self).resultmap@.contains_key(t.0) && !old(self).searchmap@.contains_key(t.0),
     ensures
         final(self).wf(), //# C01.route_invariant_preserved
         op_tuple is None ==> f is Break && final(self).resultmap@ == old(self).resultmap@ && final(self).searchmap@ == old(self).searchmap@
